@@ -62,7 +62,55 @@ def highs(c, l, u, A, lo, hi, integrality=None, time_limit=60., maximize_minus_c
         if r2.status != 2:
             r = r2
     st = {0: 'optimal', 1: 'other', 2: 'infeasible', 3: 'unbounded', 4: 'other'}.get(r.status, 'other')
+    if st == 'infeasible' and integrality is not None and np.any(integrality):
+        # third observation (C03 quick, seed 3): HiGHS declared a MILP infeasible with BOTH presolve settings while EAO's returned point satisfied every
+        # row, bound and boolean exactly. An infeasibility verdict on a mixed-integer problem therefore needs a second opinion: the same model given
+        # to SCIP (pyscipopt, called directly - not through EAO or cvxpy). If SCIP finds an optimum, that is the reference result.
+        alt = scip(c, l, u, A, lo, hi, integrality, time_limit)
+        if alt is not None:
+            return alt
     return {'status': st, 'value': (-r.fun if r.x is not None and r.fun is not None else None), 'x': r.x, 'raw': r.status}
+
+
+def scip(c, l, u, A, lo, hi, integrality, time_limit=60.):
+    """min c.x with pyscipopt; returns a result dict only for a proven optimum or proven infeasibility, else None."""
+    try:
+        import pyscipopt as ps
+    except Exception:
+        return None
+    try:
+        m = ps.Model()
+        m.hideOutput()
+        m.setParam('limits/time', float(time_limit))
+        m.setParam('limits/gap', 0.0)
+        n = len(c)
+        xs = []
+        for j in range(n):
+            lj = None if not np.isfinite(l[j]) else float(l[j]); uj = None if not np.isfinite(u[j]) else float(u[j])
+            xs.append(m.addVar(lb=lj, ub=uj, vtype='I' if (integrality is not None and integrality[j]) else 'C'))
+        if A is not None and A.shape[0] > 0:
+            Ac = sp.csr_matrix(A)
+            for i in range(Ac.shape[0]):
+                row = Ac.getrow(i)
+                expr = ps.quicksum(float(v) * xs[int(j)] for j, v in zip(row.indices, row.data))
+                if np.isfinite(lo[i]) and np.isfinite(hi[i]) and lo[i] == hi[i]:
+                    m.addCons(expr == float(lo[i]))
+                else:
+                    if np.isfinite(lo[i]):
+                        m.addCons(expr >= float(lo[i]))
+                    if np.isfinite(hi[i]):
+                        m.addCons(expr <= float(hi[i]))
+        m.setObjective(ps.quicksum(float(c[j]) * xs[j] for j in range(n) if c[j] != 0), 'minimize')
+        m.optimize()
+        stt = m.getStatus()
+        if stt == 'optimal':
+            x = np.array([m.getVal(v) for v in xs])
+            return {'status': 'optimal', 'value': float(-np.dot(np.asarray(c, float), x)), 'x': x, 'raw': 'scip'}
+        if stt == 'infeasible':
+            return {'status': 'infeasible', 'value': None, 'x': None, 'raw': 'scip'}
+    except Exception:
+        return None
+    return None
 
 
 def solve_op(op, relax=False, time_limit=60., extra_l=None, extra_u=None):
